@@ -342,10 +342,18 @@ func localVariants(g geom.Geom, tol float64, salt int) []variant {
 		})
 		perturbed[si] = h
 		add(h, true, "perturbed")
+		if si < 2 {
+			// both coordinates of every vertex off by 0.9 tol: each coordinate is
+			// perturbed by less than tol although the vertex moves by 1.27 tol
+			add(mapPoints(g, func(i int, p geom.Point) geom.Point {
+				sx, sy := sg(i)
+				return geom.Point{X: p.X + sx*0.9*tol, Y: p.Y + sy*0.9*tol}
+			}), true, "perturbed-0.9-both-coordinates")
+		}
 	}
 	for v := 0; v < np; v++ {
 		for axis := 0; axis < 2; axis++ {
-			for _, s := range []float64{2, -2} {
+			for _, s := range []float64{2, -2, 1.2, -1.2} {
 				h := mapPoints(g, func(i int, p geom.Point) geom.Point {
 					if i == v {
 						if axis == 0 {
@@ -558,7 +566,7 @@ func main() {
 		return
 	}
 	rep = report.New("C15", tier, "model_checking")
-	rep.Rule = "E1: 31 base geometries of all eight types (axis-aligned and general-position rings, closed and unclosed, a ring visiting one vertex twice, sliver rings thinner than the tolerance, multi-geometries of 33..64 members, multi-geometries holding the same member twice, distinct members sharing one bounding box, nested collections, empty geometries) whose members are >= 90 apart, tol in {1e-3, 0.1}, and the same geometries shifted by (2e7,-3e7) with tol 1e-9 (below the float spacing there); for each every derived h: identity; all coordinates perturbed by +-tol/2 in 6 sign patterns (expected true); every permutation of members combined with perturbation (true); every start rotation of closed rings (true); every single coordinate displaced by 2*tol, incl. the closing vertex of a closed ring on its own (false); every member deleted / duplicated at every position (false); every line / line member reversed (false); change of type with identical vertices (false); and, for containers, every such derivation applied to every member with the other members unchanged (nested to depth 2: rings permuted inside a multi-polygon member, members of a nested collection, ...). Every pair is evaluated in both directions (symmetry), and again twice with both operands cut from flat vertex buffers (same answers, buffers not written). Non-trivial = every derivation other than identity."
+	rep.Rule = "E1: 31 base geometries of all eight types (axis-aligned and general-position rings, closed and unclosed, a ring visiting one vertex twice, sliver rings thinner than the tolerance, multi-geometries of 33..64 members, multi-geometries holding the same member twice, distinct members sharing one bounding box, nested collections, empty geometries) whose members are >= 90 apart, tol in {1e-3, 0.1}, and the same geometries shifted by (2e7,-3e7) with tol 1e-9 (below the float spacing there); for each every derived h: identity; all coordinates perturbed by +-tol/2 in 6 sign patterns (expected true); every permutation of members combined with perturbation (true); every start rotation of closed rings (true); all coordinates perturbed by 0.9 tol (true); every single coordinate displaced by 2*tol and by 1.2*tol, incl. the closing vertex of a closed ring on its own (false); every member deleted / duplicated at every position (false); every line / line member reversed (false); change of type with identical vertices (false); and, for containers, every such derivation applied to every member with the other members unchanged (nested to depth 2: rings permuted inside a multi-polygon member, members of a nested collection, ...). Every pair is evaluated in both directions (symmetry), and again twice with both operands cut from flat vertex buffers (same answers, buffers not written). Non-trivial = every derivation other than identity."
 	cat := catalogue()
 	if tier == "thorough" {
 		cat = append(cat, generated()...)
